@@ -67,12 +67,13 @@ OpT         == [k |-> "T"]
 OpK(s)      == [k |-> "K", s |-> s]
 OpM(c, n)   == [k |-> "M", c |-> c, n |-> n]         \* self.put_variable(c, n, mapping) over the subtree of child scope n
 OpE(cl, n, t) == [k |-> "E", cl |-> cl, n |-> n, lift |-> t]      \* n = "" : automatic name; lift: nn.jit / nn.remat / identity nn.map_variables of the class
+OpN         == [k |-> "N"]                          \* Other.apply(vars, mutable=['intermediates']) of an unrelated module inside this method (a pure call)
 OpL(again)  == [k |-> "L", again |-> again]         \* return; again = TRUE: the parent calls the same instance once more
 
 VarCols == {"st", "stx"}
 Alphabet == {OpP(n) : n \in Names} \cup {OpV(c, n) : c \in VarCols, n \in Names} \cup {OpW(c, n) : c \in {"st", "stx"}, n \in Names}
             \cup {OpM("st", n) : n \in Names}
-            \cup {OpS(c) : c \in {"intermediates", "stx"}} \cup {OpT} \cup {OpK(s) : s \in Streams}
+            \cup {OpS(c) : c \in {"intermediates", "stx"}} \cup {OpT} \cup {OpN} \cup {OpK(s) : s \in Streams}
             \cup {OpE(cl, n, t) : cl \in Classes, n \in Names \cup {""}, t \in Lifts}
             \cup {OpL(a) : a \in BOOLEAN}
 
@@ -223,6 +224,10 @@ DoM(c, n) ==
           /\ Obs([k |-> "map", did |-> TRUE]) /\ status' = "run"
           /\ UNCHANGED <<cols, stack, rngcnt, draws>>
 
+\* a nested, independent apply: its scope, mutability and capture settings are its own - it returns exactly its one sown value
+\* and touches nothing of the running module
+DoN == /\ Obs([k |-> "nested", n |-> 1]) /\ status' = "run" /\ Keep
+
 AutoName(cl, i) == cl \o "_" \o ToString(i)
 LiftedClass(cl, t) == CASE t = "jit" -> "Jit" \o cl [] t = "remat" -> "Checkpoint" \o cl [] t = "mapvars" -> "Map_variables" \o cl [] OTHER -> cl
 AutoClasses == Classes \cup {LiftedClass(c, t) : c \in Classes, t \in {"jit", "remat", "mapvars"}}
@@ -288,6 +293,7 @@ Exec(op) ==
     [] op.k = "T" -> DoT
     [] op.k = "K" -> DoK(op.s)
     [] op.k = "M" -> DoM(op.c, op.n)
+    [] op.k = "N" -> DoN
     [] op.k = "E" -> DoE(op.cl, op.n, op.lift)
     [] op.k = "L" -> DoL(op.again)
 
